@@ -308,6 +308,19 @@ func c06Body(cfg c06Cfg, sc c06Scn, res *string) func(x *sched.Exec) {
 		for k := 0; k < 8; k++ {
 			sched.SpinYield()
 		}
+		// the ring overwrites its oldest record only when it is full: with no more records than it
+		// holds, nothing can have been dropped
+		emits := 0
+		for _, ops := range append(append([][]string{}, sc.threads...), sc.tail) {
+			for _, op := range ops {
+				if strings.HasPrefix(op, "M:") {
+					emits++
+				}
+			}
+		}
+		if d := int(logged + bp.q.dropped.Peek()); emits <= cfg.q && d > 0 {
+			x.Fail("C06|dropped-although-the-queue-had-room", "%d record(s) counted as dropped; the scenario emits %d records into a queue of %d", d, emits, cfg.q)
+		}
 		sort.Strings(results)
 		*res = fmt.Sprintf("%v drop=%d sd=%d %v", e.batches, logged+bp.q.dropped.Peek(), e.sd, results)
 	}
